@@ -70,8 +70,8 @@ CountCases ==
         hd == Hd(RootTab[l], <<>>, <<>>)
         un == Bytes([i \in 1..7 |-> Fix(hd.f[i])] \o VB(hd.f[8]) \o <<Fix(hd.f[9])>>)
         tail == LE32(1) \o TxRaws[1]
-    IN {Case("bookkeeper-count-ge-2^63", un \o BigCount(hi) \o <<0>> \o tail, "accept") : hi \in {128, 255}}
-       \cup {Case("sig-count-ge-2^63", un \o <<0>> \o BigCount(hi) \o tail, "accept") : hi \in {128, 255}}
+    IN {Case("bookkeeper-count-ge-2^63", un \o BigCount(hi) \o <<0>> \o tail, IF CountAsInt THEN "accept" ELSE "reject") : hi \in {128, 255}}
+       \cup {Case("sig-count-ge-2^63", un \o <<0>> \o BigCount(hi) \o tail, IF CountAsInt THEN "accept" ELSE "reject") : hi \in {128, 255}}
        \cup {Case("count-huge", un \o BigCount(127) \o <<0>> \o tail, "reject"), Case("count-huge", un \o <<0>> \o <<254, 0, 0, 0, 1>> \o tail, "reject")}
 
 CasesFor(PrefixStep) == ListCases \cup HeaderCases(PrefixStep) \cup CountCases
